@@ -4,6 +4,7 @@ Two functions that differ only in how a Python programmer chose to write the sam
 below is behaviour-preserving for the code it matches (evaluation order of pure sub-expressions aside); it is applied to both
 siblings, bottom-up, until nothing changes.
 
+  truth value   if/while/filter on len(x) != 0, len(x) > 0 -> x;  len(x) == 0 -> not x
   comparisons   x == None -> x is None; type(x) == T -> type(x) is T; not a in b -> a not in b; not (a == b) -> a != b; not not x -> x
   branches      if not c: A else: B -> if c: B else: A;  if c: T (ends in return/raise/continue/break) ; REST -> if c: T else: REST;
                 top level `if c: return` ; REST -> if not c: REST;  if a: (if b: S) -> if a and b: S;
@@ -41,7 +42,41 @@ def _is_negated(e):
     return isinstance(e, ast.Compare) and len(e.ops) == 1 and isinstance(e.ops[0], (ast.NotEq, ast.IsNot, ast.NotIn))
 
 
+def _truth(e):
+    """Boolean context: len(x) != 0 / len(x) > 0 -> x;  len(x) == 0 -> not x;  x != [] ... stay."""
+    if isinstance(e, ast.Compare) and len(e.ops) == 1 and isinstance(e.left, ast.Call) and isinstance(e.left.func, ast.Name) \
+            and e.left.func.id == "len" and len(e.left.args) == 1 and isinstance(e.comparators[0], ast.Constant) \
+            and type(e.comparators[0].value) is int:
+        k, op = e.comparators[0].value, e.ops[0]
+        if k == 0 and isinstance(op, (ast.NotEq, ast.Gt)) or k == 1 and isinstance(op, ast.GtE):
+            return e.left.args[0]
+        if k == 0 and isinstance(op, (ast.Eq, ast.LtE)) or k == 1 and isinstance(op, ast.Lt):
+            return ast.UnaryOp(op=ast.Not(), operand=e.left.args[0])
+    if isinstance(e, ast.UnaryOp) and isinstance(e.op, ast.Not):
+        inner = _truth(e.operand)
+        if inner is not e.operand:
+            return negate(inner)
+    if isinstance(e, ast.BoolOp):
+        e.values = [_truth(v) for v in e.values]
+    return e
+
+
 class _Expr(ast.NodeTransformer):
+    def visit_If(self, n):
+        self.generic_visit(n)
+        n.test = _truth(n.test)
+        return n
+
+    def visit_While(self, n):
+        self.generic_visit(n)
+        n.test = _truth(n.test)
+        return n
+
+    def visit_comprehension(self, n):
+        self.generic_visit(n)
+        n.ifs = [_truth(x) for x in n.ifs]
+        return n
+
     def visit_Compare(self, n):
         self.generic_visit(n)
         if len(n.ops) == 1:
@@ -66,6 +101,7 @@ class _Expr(ast.NodeTransformer):
 
     def visit_IfExp(self, n):
         self.generic_visit(n)
+        n.test = _truth(n.test)
         if _is_negated(n.test):
             n.test, n.body, n.orelse = negate(n.test), n.orelse, n.body
         return n
